@@ -480,6 +480,14 @@ func (e *Engine) step(st *State, fr *Frame, instr ssa.Instruction) bool {
 				return true
 			}
 		}
+		if xa, ok := x.(VAbs); ok && xa.Kind == "strslice" {
+			if is, ok := idx.(VSym); ok {
+				ss := xa.Data.(*StrSlice)
+				cell := e.newCell(st, sym(Select(ss.Arr, is.T, SStr)))
+				st.wregs(fr)[in] = VPtr{Cell: cell}
+				return true
+			}
+		}
 		et := in.Type().(*types.Pointer).Elem()
 		cell := e.newCell(st, VLazy{et, fmt.Sprintf("elem.%d", e.nextID())})
 		st.wregs(fr)[in] = VPtr{Cell: cell}
@@ -630,6 +638,23 @@ func (e *Engine) havoc(st *State, t types.Type, hint string) Value {
 		return VPtr{Cell: cell}
 	case *types.Map:
 		return e.symbolicMap(st, u, fmt.Sprintf("%s.%d", hint, e.nextID()))
+	case *types.Slice:
+		if b, ok := u.Elem().Underlying().(*types.Basic); ok && b.Kind() == types.String {
+			// an arbitrary []string: SMT sequence with symbolic length (nil iff flagged)
+			name := fmt.Sprintf("%s.strs%d", sanitize(hint), e.nextID())
+			arr := st.declare(name+".arr", SStrSeq)
+			ln := st.declare(name+".len", SInt)
+			nilT := st.declare(name+".isnil", SBool)
+			st.assume(Ge(ln, IntLit(0)))
+			st.assume(Implies(nilT, Eq(ln, IntLit(0))))
+			return VAbs{Kind: "strslice", ID: e.nextID(), Data: &StrSlice{Arr: arr, Len: ln, Nil: nilT}}
+		}
+	case *types.Interface:
+		if u.NumMethods() == 0 {
+			// an arbitrary `any`: an opaque value of the JSON sort (nil iff JNULL; type assertions to map[string]any
+			// give the same Go map every time, so that identity of nested maps is preserved)
+			return VAbs{Kind: "json", ID: e.nextID(), Data: e.fresh(st, hint+".any", SJson)}
+		}
 	}
 	return VUnknown{Typ: t, Note: hint, ID: e.nextID()}
 }
@@ -1112,6 +1137,17 @@ func (e *Engine) sliceOp(st *State, fr *Frame, in *ssa.Slice) bool {
 		} else {
 			hiConst = false
 		}
+	}
+	if xa, ok := x.(VAbs); ok && xa.Kind == "strslice" && (in.Low == nil || (loConst && lo == 0)) {
+		ss := xa.Data.(*StrSlice)
+		nl := ss.Len
+		if in.High != nil {
+			if hv, ok := e.operand(st, fr, in.High).(VSym); ok {
+				nl = hv.T
+			}
+		}
+		st.wregs(fr)[in] = VAbs{Kind: "strslice", ID: e.nextID(), Data: &StrSlice{Arr: ss.Arr, Len: nl, Nil: ss.Nil}}
+		return true
 	}
 	switch p := x.(type) {
 	case VPtr: // pointer to array
